@@ -14,6 +14,7 @@ import FordModel.Lemmas.PageTreeNodup
 import FordModel.PageAlias
 import FordModel.Lemmas.PageAlias
 import FordModel.Lemmas.PageGuard
+import FordModel.Lemmas.PageCopy
 import FordModel.Generated.C17Probe
 namespace Ford.C17
 open Ford Ford.PT Ford.Gen.C17
@@ -678,6 +679,189 @@ theorem symlinks_transparent_probe :
 theorem symlink_probe_mirrors :
     (∀ p ∈ expPages walkProbeDir, p ∈ walkProbePages) ∧ (∀ p ∈ walkProbePages, p ∈ expPages walkProbeDir) ∧
     walkProbePages.length = 9 := by
+  decide
+
+/-! ### round 6: assets next to their pages - the copy loops of `PagetreePage.writeout`, the project's `copy_subdir` -/
+
+/-- **Every page is written** where `PagetreePage.outfile` says: for every tree of page nodes (any shape, any
+    `copy_subdir` / file lists) and every node of it, the node's path exists below `<output>/page` after all
+    `writeout`s - nothing a later page copies or writes removes it. -/
+theorem page_file_written (top n : Node) (hn : n ∈ preorder top) : n.path ∈ paths (outputs top) :=
+  foldl_writeNode_of_mem _ [] n _ hn (fun st => writeNode_has_path st n)
+
+/-- **"other files ... are copied next to their pages"**: every file recorded for a page (`node.files`) exists
+    next to that page after the run, for every tree of nodes, whatever the page's `copy_subdir` loop did before
+    (missing directories, directories that exist already) and whatever the other pages do. -/
+theorem other_files_copied_next_to_pages (top n : Node) (f : Str) (hn : n ∈ preorder top) (hf : f ∈ n.files) :
+    n.loc ++ [f] ∈ paths (outputs top) :=
+  foldl_writeNode_of_mem _ [] n _ hn (fun st => writeNode_has_file st n f hf)
+
+/-- **"`copy_subdir` directories are copied next to their pages": every listed item is attempted.**  For every
+    tree of nodes, every page and every item of its `copy_subdir` whose source is a directory, that directory
+    exists next to the page after the run - wherever the item stands in the list, i.e. also behind items that
+    could not be copied (names that are no directory next to this page, names whose place is taken). -/
+theorem copy_subdir_every_item_attempted (top n : Node) (it : Str) (listing : List (PathS × Bool))
+    (hn : n ∈ preorder top) (hm : (it, some listing) ∈ n.copies) (hroot : ([it], true) ∈ listing) :
+    n.loc ++ [it] ∈ paths (outputs top) :=
+  foldl_writeNode_of_mem _ [] n _ hn (fun st => writeNode_has_copy st n it listing hm hroot)
+
+/-- ... and the listing that the walk attaches to an item is rooted at the item's own directory (the hypothesis
+    `hroot` above holds for every node that `get_page_tree` builds). -/
+theorem copy_listing_rooted (sibs : List Entry) (item : Str) (l : List (PathS × Bool))
+    (h : copyListing sibs item = (item, some l)) : ([item], true) ∈ l :=
+  copyListing_rooted sibs item l h
+
+/-- **Every page that `get_page_tree` builds attempts every item of its `copy_subdir`**: for every page directory,
+    every variant and every page of the resulting tree, the copy loop of the page runs over exactly the items of
+    the page's `copy_subdir` (none is dropped, in order), and every item that is a directory next to the page is
+    a directory next to the written page after the run - no hypothesis on the lists (missing names, files,
+    repetitions, names of sub-trees), on the order of the pages, or on what other pages copy. -/
+theorem built_pages_copy_every_listed_directory (v : Variant) (cs : List Entry) (top n : Node)
+    (h : getPageTree v cs = .page top) (hn : n ∈ preorder top) :
+    n.copies.map Prod.fst = n.copySub ∧
+    ∀ it l, (it, some l) ∈ n.copies → n.loc ++ [it] ∈ paths (outputs top) := by
+  have hall := getPageTree_copyOk v cs
+  rw [h] at hall
+  obtain ⟨h1, h2, _⟩ := hall n hn
+  exact ⟨h1, fun it l hm => copy_subdir_every_item_attempted top n it l hn hm (h2 it l hm)⟩
+
+/-- ... in particular for a run of the source under test with any project `copy_subdir` and any project encoding,
+    on the directory as it is on disk. -/
+theorem project_run_copies_every_listed_directory (v : Variant) (enc : Str) (pcs : List Str) (cs : List RawEntry)
+    (top n : Node) (h : getPageTreeProj CallSites.gen v enc pcs cs = .page top) (hn : n ∈ preorder top) :
+    n.copies.map Prod.fst = n.copySub ∧
+    ∀ it l, (it, some l) ∈ n.copies → n.loc ++ [it] ∈ paths (outputs top) :=
+  built_pages_copy_every_listed_directory v _ top n h hn
+
+/-- **The copy loop copies whole directories**: in a `copy_subdir` list of distinct names (listings rooted at
+    their own names, as `copyListing` makes them), every directory whose place next to the page is still free
+    when the loop starts is copied completely - every file and directory below it, at the same relative path -
+    however many other items of the list fail.  (`_partial`: a place that is already taken - an earlier page
+    copied or created a directory of that name - makes `shutil.copytree` fail; the item is then skipped with a
+    warning, see `copy_into_existing_directory_witness`.) -/
+theorem copy_loop_copies_whole_directory_partial (loc : PathS) (items : List (Str × Option (List (PathS × Bool))))
+    (st : List (PathS × Bool)) (it : Str) (listing : List (PathS × Bool))
+    (hm : (it, some listing) ∈ items) (hnd : (items.map Prod.fst).Nodup)
+    (hrooted : ∀ i l, (i, some l) ∈ items → ∀ p ∈ l, p.1.head? = some i)
+    (hfree : loc ++ [it] ∉ paths st) :
+    ∀ p ∈ listing, (loc ++ p.1, p.2) ∈ copyItems loc items st :=
+  copyItems_complete loc items st it listing hm hnd hrooted hfree
+
+/-- **A `copy_subdir` directory is copied next to its page with everything in it** - for every page directory,
+    every variant, every page `n` that `get_page_tree` builds (`pre` = the pages written before it, `post` = after)
+    and every directory `it` of a `copy_subdir` without repetitions: if nothing occupies the place `n.loc/it` when
+    the page's `writeout` starts, every file and directory below the source is below `<output>/page/n.loc/it` at
+    the same relative path after the run, whatever the other items of the list are (missing, files, taken) and
+    whatever the later pages do.  (`_partial`: the place must be free and the directory must not be called like
+    the page file; the witness below shows the excluded class.) -/
+theorem built_page_copies_whole_directory_partial (v : Variant) (cs : List Entry) (top n : Node) (pre post : List Node)
+    (h : getPageTree v cs = .page top) (hsplit : preorder top = pre ++ n :: post)
+    (it : Str) (l : List (PathS × Bool)) (hm : (it, some l) ∈ n.copies) (hnd : n.copySub.Nodup)
+    (hfree : n.loc ++ [it] ∉ paths (pre.foldl writeNode [])) (hne : it ≠ n.file) :
+    ∀ p ∈ l, (n.loc ++ p.1, p.2) ∈ outputs top := by
+  have hall := getPageTree_copyOk v cs
+  rw [h] at hall
+  have hn : n ∈ preorder top := by rw [hsplit]; simp
+  obtain ⟨h1, _, h3⟩ := hall n hn
+  exact outputs_copies_whole top n pre post hsplit it l hm (h1 ▸ hnd) h3 hfree hne
+
+/-- The excluded class is real: when the place is taken (here by the sub-tree `sub/` written before the leaf
+    page `z.md` is), the directory named by the leaf page's `copy_subdir` is not copied again, and what only the
+    copy would have brought (`sub/.hidden`) is missing. -/
+theorem copy_into_existing_directory_witness :
+    let w : List Entry :=
+      [.file (pt! "index.md") ⟨some ['T'], [], [], []⟩,
+       .dir (pt! "sub") [.file (pt! "index.md") ⟨some ['S'], [], [], []⟩, .file (pt! ".hidden") ⟨none, [], [], []⟩],
+       .file (pt! "z.md") ⟨some ['Z'], [], [pt! "sub"], []⟩]
+    (match getPageTree Variant.asIs w with
+     | .page top => ([pt! "sub", pt! ".hidden"], false) ∈ outputs top
+     | _ => true) = false ∧
+    ([pt! "sub", pt! ".hidden"], false) ∈ expAssets [] w := by
+  decide
+
+/-- **File option first, project setting otherwise** (`self.meta.copy_subdir or proj_copy_subdir`): a page that
+    sets `copy_subdir` keeps exactly its own list, a page that sets none gets exactly the project's. -/
+theorem copy_subdir_file_option_first (pcs own : List Str) :
+    (own ≠ [] → effCopy pcs own = own) ∧ (own = [] → effCopy pcs own = pcs) := by
+  constructor
+  · intro h
+    cases own with
+    | nil => exact absurd rfl h
+    | cons a r => rfl
+  · intro h
+    subst h
+    rfl
+
+/-- `ford.main` starts the walk with the project's `copy_subdir` setting. -/
+theorem main_passes_project_copy_subdir :
+    mainCall.lookup copyParam = some (pt! "proj_data.copy_subdir") := by decide
+
+/-- **The project's `copy_subdir` reaches every page at every depth unchanged**: for every page directory and
+    every project list, what the walk of the source under test takes as `copy_subdir` of a page - through the
+    recursive call and the two `PageNode(...)` calls as the generated tables describe them - is the page's own
+    option if it has one and the PROJECT's list otherwise, never the list of an ancestor page.
+    Depends on `recCall`, `indexNodeCall`, `subNodeCall`. -/
+theorem project_copy_subdir_reaches_every_depth (pcs : List Str) (cs : List Entry) :
+    projTop CallSites.gen pcs cs = withProjL pcs cs :=
+  projL_gen pcs _ cs
+
+/-- ... and this does depend on the call table: if the recursive call handed down the list in effect for the
+    enclosing index page instead, a sub-directory without an own option below a page that sets one would lose
+    the project's directory (`sub/media`) and be given the ancestor's list. -/
+theorem copy_subdir_not_forwarded_witness :
+    let c : CallSites := { CallSites.gen with
+      recCall := CallSites.gen.recCall.map (fun kv => if kv.1 == copyParam then (kv.1, nodeCopyExpr) else kv) }
+    let w : List Entry :=
+      [.file (pt! "index.md") ⟨some ['T'], [], [pt! "images"], []⟩,
+       .dir (pt! "images") [.file (pt! "i.png") ⟨none, [], [], []⟩],
+       .dir (pt! "sub") [.file (pt! "index.md") ⟨some ['S'], [], [], []⟩,
+                         .dir (pt! "media") [.file (pt! "y.png") ⟨none, [], [], []⟩]]]
+    (match getPageTree Variant.asIs (projTop c [pt! "media"] w) with
+     | .page top => (preorder top).map Node.copySub
+     | _ => []) = [[pt! "images"], [pt! "images"]] ∧
+    (match getPageTree Variant.asIs (projTop CallSites.gen [pt! "media"] w) with
+     | .page top => (preorder top).map Node.copySub
+     | _ => []) = [[pt! "images"], [pt! "media"]] ∧
+    ([pt! "sub", pt! "media", pt! "y.png"], false) ∈ expAssets [pt! "media"] w := by
+  decide
+
+/-- **The copy loops and the hand-down, probed on the real code**: on the probe directory (pages with and
+    without an own `copy_subdir` at four depths, lists whose first entries do not exist next to the page, a leaf
+    page and its index page naming the same directories, files before and after) the real `get_page_tree`,
+    started with the project list, gave every page exactly the `copy_subdir` the model computes, and the real
+    `PagetreePage.writeout`s left below `<output>/page` exactly what the model's `outputs` contains. -/
+theorem copy_probe_agrees :
+    (match getPageTree ⟨.asIs, .skips⟩ (projTop CallSites.gen copyProbeProj copyProbeDir) with
+     | .page top =>
+       decide ((preorder top).map (fun n => (n.path, n.copySub)) = copyProbeNodes) &&
+       (outputs top).all (fun p => copyProbeOut.contains p) &&
+       copyProbeOut.all (fun p => (outputs top).contains p)
+     | _ => false) = true := by
+  decide
+
+/-- ... and that is what the statement asks for: everything expected next to the pages of the probe directory
+    (`expAssets`: the other files, and every directory named by a page's own `copy_subdir` or else by the
+    project's, with everything in it) is in the output the real code produced, as the same kind of entry. -/
+theorem copy_probe_assets_next_to_pages :
+    ∀ p ∈ expAssets copyProbeProj copyProbeDir, p ∈ copyProbeOut := by
+  decide
+
+/-- ... and nothing else: everything the real code left below `<output>/page` for the probe directory is a page the
+    statement expects, a directory that holds such a page, or one of the expected assets (a page that sets its own
+    `copy_subdir` did NOT get the project's directories as well: `solo/media/`, next to a page whose own list is
+    `keep`, is not in the output). -/
+theorem copy_probe_nothing_else :
+    copyProbeOut.all (fun p =>
+      (expAssets copyProbeProj copyProbeDir).contains p ||
+      (!p.2 && (expPages copyProbeDir).contains p.1) ||
+      (p.2 && (expPages copyProbeDir).any (fun q => properPrefix p.1 q))) = true := by
+  decide
+
+/-- Non-vacuity: the probe expects 37 assets (with repetitions: a leaf page and its index page may name the same directory), among them directories behind a missing first item. -/
+example :
+    (expAssets copyProbeProj copyProbeDir).length = 37 ∧
+    ([pt! "tut", pt! "media", pt! "sub", pt! "deep.dat"], false) ∈ expAssets copyProbeProj copyProbeDir ∧
+    ([pt! "tut", pt! "howto", pt! "downloads", pt! "tool.zip"], false) ∈ expAssets copyProbeProj copyProbeDir := by
   decide
 
 end Ford.C17
